@@ -73,8 +73,8 @@ def strategy_(draw, tier):
                           strs=draw(st.booleans()), fill=draw(st.booleans()), rng=draw(st.booleans()),
                           scale=draw(st.booleans()), smask=draw(st.integers(0, 7)), slabs=draw(st.integers(1, 3)),
                           unlim=(w == "sd" and draw(st.integers(0, 2)) == 0)))
-    for i in range(draw(st.integers(0, 2))):
-        items.append(dict(kind="ri8", w=draw(st.sampled_from(["dfr8", "dfr8", "gr"])), x=draw(st.integers(1, 9)),
+    for i in range(draw(st.sampled_from([0, 1, 2, 2, 3]))):
+        items.append(dict(kind="ri8", w=draw(st.sampled_from(["dfr8", "gr"])), x=draw(st.integers(1, 9)),
                           y=draw(st.integers(1, 9)), pal=draw(st.booleans()),
                           comp=draw(st.sampled_from(["none", "none", "rle", "deflate"])), name="i8_%d" % i))
     for i in range(draw(st.integers(0, 2))):
